@@ -9,6 +9,7 @@ import (
 	"strconv"
 	"strings"
 	"sync"
+	"sync/atomic"
 	"testing"
 
 	"github.com/cloudwego/hertz/pkg/app/server/binding"
@@ -742,8 +743,42 @@ func render(v reflect.Value) string {
 	return sb.String()
 }
 
-// checkCase binds twice and compares with the reference.
+// inD175: known finding D175. A field with a declared default whose source tags are all spelled "-" and that has
+// no json tag at all never gets its default (the tag loop leaves before it picks the default up; the repair
+// 1ef46ae made the default overwrite values bound from the body by the field's Go name and was withdrawn).
+func inD175(c *genCase) bool {
+	for i := range c.Fields {
+		f := &c.Fields[i]
+		if f.Default == "" || len(f.Tags) == 0 {
+			continue
+		}
+		all := true
+		for s, k := range f.Tags {
+			if k != "-" || s == "json" {
+				all = false
+			}
+		}
+		if all {
+			return true
+		}
+	}
+	return false
+}
+
+var knownD175 int64
+
+// checkCase is checkCaseRaw; a failing case of the D175 shape is reported as the known finding when it is listed.
 func checkCase(c *genCase) string {
+	msg := checkCaseRaw(c)
+	if msg != "" && inD175(c) && ev.ReportKnown(prop, "D175") {
+		atomic.AddInt64(&knownD175, 1)
+		return ""
+	}
+	return msg
+}
+
+// checkCaseRaw binds twice and compares with the reference.
+func checkCaseRaw(c *genCase) string {
 	wire, params := encode(c.Fields, c.Req)
 	want, wantErr := reference(c)
 	var first string
@@ -852,6 +887,9 @@ var history []*genCase
 
 func TestC15Bind(t *testing.T) {
 	rec := ev.New("bind")
+	defer func() {
+		rec.Excluded("D175-default-of-a-field-whose-source-tags-are-all-skipped", atomic.SwapInt64(&knownD175, 0))
+	}()
 	rapid.Check(t, func(t *rapid.T) {
 		c := &genCase{Fields: genFields(t)}
 		c.typ = buildType(c.Fields)
@@ -889,6 +927,9 @@ func TestC15Bind(t *testing.T) {
 // TestC15Concurrent binds many types concurrently (race build in the thorough tier).
 func TestC15Concurrent(t *testing.T) {
 	rec := ev.New("concurrent")
+	defer func() {
+		rec.Excluded("D175-default-of-a-field-whose-source-tags-are-all-skipped", atomic.SwapInt64(&knownD175, 0))
+	}()
 	rapid.Check(t, func(t *rapid.T) {
 		n := rapid.IntRange(4, 12).Draw(t, "nTypes")
 		var cases []*genCase
